@@ -48,6 +48,11 @@ type pCall struct {
 	Pos     string `json:"pos"`
 	Callee  string `json:"callee"`
 	DstType string `json:"dst_type"` // type of the first argument (the destination of append/copy/sort…)
+	DstRoot string `json:"dst_root"` // root identifier of the first argument
+	// DstFresh: the first argument is a plain local slice variable that is declared without a value (nil), with
+	// make(…) or with a composite literal, and whose every later assignment is `x = append(x, …)` or again such a
+	// fresh value: its backing array is allocated inside this function
+	DstFresh bool `json:"dst_fresh"`
 	Text    string `json:"text"`
 }
 
@@ -369,11 +374,91 @@ func (w *purityWalker) call(c *ast.CallExpr) {
 	if !shared {
 		return
 	}
-	dst := "?"
+	dst, dstRoot, fresh := "?", "?", false
 	if len(c.Args) > 0 {
 		dst = w.typeStr(info.TypeOf(c.Args[0]))
+		if root := rootIdent(c.Args[0]); root != nil {
+			dstRoot = root.Name
+		}
+		if id, ok := c.Args[0].(*ast.Ident); ok {
+			fresh = w.freshLocal(id)
+		}
 	}
-	w.calls = append(w.calls, pCall{w.f.key, posOf(w.f.pkg, c), name, dst, srcText(w.f.pkg, c)})
+	w.calls = append(w.calls, pCall{w.f.key, posOf(w.f.pkg, c), name, dst, dstRoot, fresh, srcText(w.f.pkg, c)})
+}
+
+func (w *purityWalker) freshExpr(e ast.Expr) bool {
+	switch x := e.(type) {
+	case *ast.CompositeLit:
+		return true
+	case *ast.Ident:
+		return x.Name == "nil" && w.f.pkg.TypesInfo.Uses[x] == types.Universe.Lookup("nil")
+	case *ast.CallExpr:
+		return calleeName(w.f.pkg, x) == "make"
+	}
+	return false
+}
+
+// freshLocal: see pCall.DstFresh.
+func (w *purityWalker) freshLocal(id *ast.Ident) bool {
+	info := w.f.pkg.TypesInfo
+	obj, ok := info.Uses[id].(*types.Var)
+	if !ok || w.recv[obj] != "" || w.params[obj] || obj.IsField() || (obj.Pkg() != nil && obj.Parent() == obj.Pkg().Scope()) {
+		return false
+	}
+	declared, fresh := false, true
+	ast.Inspect(w.f.decl.Body, func(n ast.Node) bool {
+		switch x := n.(type) {
+		case *ast.ValueSpec:
+			for i, name := range x.Names {
+				if info.Defs[name] == obj {
+					declared = true
+					if len(x.Values) > i && !w.freshExpr(x.Values[i]) {
+						fresh = false
+					}
+					if len(x.Values) > 0 && len(x.Values) != len(x.Names) {
+						fresh = false
+					}
+				}
+			}
+		case *ast.AssignStmt:
+			for i, l := range x.Lhs {
+				lid, ok := l.(*ast.Ident)
+				if !ok {
+					continue
+				}
+				isDef := info.Defs[lid] == obj
+				if !isDef && info.Uses[lid] != obj {
+					continue
+				}
+				if len(x.Rhs) != len(x.Lhs) {
+					fresh = false
+					continue
+				}
+				rhs := x.Rhs[i]
+				if isDef {
+					declared = true
+				}
+				if w.freshExpr(rhs) {
+					continue
+				}
+				if call, ok := rhs.(*ast.CallExpr); ok && !isDef && calleeName(w.f.pkg, call) == "append" && len(call.Args) > 0 {
+					if aid, ok := call.Args[0].(*ast.Ident); ok && info.Uses[aid] == obj {
+						continue
+					}
+				}
+				fresh = false
+			}
+		case *ast.RangeStmt:
+			for _, e := range []ast.Expr{x.Key, x.Value} {
+				if rid, ok := e.(*ast.Ident); ok && (info.Defs[rid] == obj || info.Uses[rid] == obj) {
+					fresh = false
+				}
+			}
+		}
+		return true
+	})
+	return declared && fresh
 }
 
 func genPurity(t *target, facts map[string]interface{}) error {
@@ -455,7 +540,7 @@ func genPurity(t *target, facts map[string]interface{}) error {
 		"    the text conversions (C13). -/\n\nnamespace Gen.Purity\n\n")
 	b.WriteString("structure Site where\n  fn : String\n  pos : String\n  text : String\nderiving Repr, DecidableEq\n\n")
 	b.WriteString("structure Store where\n  fn : String\n  pos : String\n  rootKind : String\n  root : String\n  deref : Bool\n  objType : String\n  text : String\nderiving Repr, DecidableEq\n\n")
-	b.WriteString("structure ExtCall where\n  fn : String\n  pos : String\n  callee : String\n  dstType : String\n  text : String\nderiving Repr, DecidableEq\n\n")
+	b.WriteString("structure ExtCall where\n  fn : String\n  pos : String\n  callee : String\n  dstType : String\n  dstRoot : String\n  dstFresh : Bool\n  text : String\nderiving Repr, DecidableEq\n\n")
 
 	fmt.Fprintf(&b, "def roots : List String := %s\n\n", leanStrList(purityRoots))
 	b.WriteString("/-- for every root: the functions of the module reachable from it (sorted) -/\ndef reach : List (String × List String) := [\n")
@@ -537,7 +622,8 @@ func genPurity(t *target, facts map[string]interface{}) error {
 		if i == len(calls)-1 {
 			sep = ""
 		}
-		fmt.Fprintf(&b, "  ⟨%s, %s, %s, %s, %s⟩%s\n", leanString(x.Func), leanString(x.Pos), leanString(x.Callee), leanString(x.DstType), leanString(x.Text), sep)
+		fmt.Fprintf(&b, "  ⟨%s, %s, %s, %s, %s, %s, %s⟩%s\n", leanString(x.Func), leanString(x.Pos), leanString(x.Callee), leanString(x.DstType),
+			leanString(x.DstRoot), leanBool(x.DstFresh), leanString(x.Text), sep)
 	}
 	b.WriteString("]\n\n")
 	b.WriteString("/-- reads of package-level variables (function, variable) in reachable functions -/\ndef pkgVarReads : List (String × String) := [\n")
